@@ -11,6 +11,7 @@ import (
 	"math"
 	"os"
 	"regexp"
+	"runtime/debug"
 	"strconv"
 	"strings"
 
@@ -185,6 +186,7 @@ func runCase(cs Case, verbose bool) *Result {
 	res := &Result{Counters: map[string]int{}}
 	r := &runner{cs: cs, eng: cs.Engine, ctx: context.Background(), res: res, h: fnv.New64a(),
 		rng: core.NewRng(int64(cs.Seed), 14), verbose: verbose}
+	var rt wazero.Runtime
 	defer func() {
 		res.Digest = fmt.Sprintf("%016x", r.h.Sum64())
 		res.RSSKB = readStatusKB("VmRSS")
@@ -193,6 +195,15 @@ func runCase(cs Case, verbose bool) *Result {
 			res.Log = r.log
 		}
 		res.Stopped = r.stop
+		if res.Counters["harness_rss_safety_net"] > 0 {
+			for _, mod := range r.mods {
+				mod.Close(r.ctx)
+			}
+			if rt != nil {
+				rt.Close(r.ctx)
+			}
+			debug.FreeOSMemory()
+		}
 		if r.m != nil {
 			r.m.release()
 		}
@@ -220,7 +231,7 @@ func runCase(cs Case, verbose bool) *Result {
 	if cfg.Kind == "shared" {
 		rc = rc.WithCoreFeatures(api.CoreFeaturesV2 | experimental.CoreFeaturesThreads)
 	}
-	rt := wazero.NewRuntimeWithConfig(r.ctx, rc)
+	rt = wazero.NewRuntimeWithConfig(r.ctx, rc)
 	defer rt.Close(r.ctx)
 	_, err := rt.NewHostModuleBuilder("env").NewFunctionBuilder().
 		WithFunc(func(ctx context.Context, mod api.Module, d uint32) uint32 {
@@ -649,6 +660,14 @@ func (r *runner) doStep(s Step) string {
 		desc = r.stepLoop(s)
 	}
 	r.logf("step %d: %s   model %d -> %d pages", r.step, desc, before, r.m.size)
+	if r.cs.Class != "heavy" {
+		// safety net: no history of the normal class may make this process big
+		if rss := readStatusKB("VmRSS"); rss > 2<<20 {
+			r.fail(true, "resource:rss-above-2GiB-in-small-history", "after %s the process RSS is %d KiB although the model memory is %d pages (config %s)", desc, rss, r.m.size, r.cs.Cfg)
+			r.m.bound = 0 // no resync: stop
+			r.res.Counters["harness_rss_safety_net"]++
+		}
+	}
 	r.resync()
 	if r.stop {
 		return desc + " STOP"
